@@ -8,6 +8,8 @@ from harness import world as W
 S = load()
 
 PROPERTY = "C15"
+LEVEL_TEXT = 'Exploration of creation / sharing / writing / replacement / dropping / gc histories against a shadow model of the true sharing relation, with an end-of-program sweep of 336 fresh-vector writes to make id() reuse observable; replay repeats 30 times.'
+LEVEL_NOTE = 'id() reuse depends on the allocator: the sweep makes a stale registration fire with high probability but cannot force it.'
 DESIGN_REF = "DESIGN.md §5 C15"
 ENGINE = "world"
 REPLAY_REPEATS = 30
